@@ -44,6 +44,16 @@ CLAIMED = {
         "jittered timing, both flags, evaluated in Coq; seeded spatial grids; swapped channels refused.",
    ref="5/C15", note=TB + "dict merge + sorted() and pandas nearest reindexing are modelled; ties in nearest reindexing excluded.",
    technique="Coq proof (iff + code=spec for all histories) + exhaustive history enumeration via vm_compute"),
+ "C04": dict(
+   text="Proof over REGENERATED source text (Gen/GenLayout.v, produced on every run by an ast translator from ParameterIndexDoubleEnded / "
+        "ParameterIndexSingleEnded): for all nt, nx, nta >= 0 the index blocks in the order of `all` enumerate 0..npar-1 exactly once, "
+        "ta[t,dir,k] = 1+2nt+nx+t+nt*dir+2nt*k, the documented layout by parameter name reads exactly those positions, stays inside p_val and is "
+        "injective; the full splice loss is the sum over acting splices; the temperature conformance test is sound over Q. Conformance on real "
+        "calibration results: named parameters and *_var compared exactly with p_val / diag(p_cov) through the layout, tmpf/tmpb recomputed in exact "
+        "dyadic arithmetic (2^-30 relative), method='external' round trip bit-identical. The translator is validated against the running classes "
+        "for every nt,nx<=8, nta<=3 on each run (exhaustive).",
+   ref="5/C04", note=TB + "translator vlib/translators/layout.py (fail-closed grammar); ln(st/ast) is an input of the model.",
+   technique="Coq proof over translator-regenerated index arithmetic + exhaustive translation validation + exact conformance via vm_compute"),
 }
 NA = {}
 ALL = [f"C{i:02d}" for i in range(1, 21)]
